@@ -209,6 +209,17 @@ Section Wiring.
        c_assume_http2 := false;
        c_with_native_roots := f_native_roots f; c_with_webpki_roots := f_webpki_roots f |}.
 
+  Inductive cli_setter :=
+  | CSetCa (blob : list (pem_sec ca)) | CSetDomain (d : dname) | CSetIdentity (i : Identity cert)
+  | CSetAssume (b : bool).
+  Definition apply_cli_setter (c : ClientTlsConfig) (s : cli_setter) : ClientTlsConfig :=
+    match s with
+    | CSetCa blob => ca_certificate c blob
+    | CSetDomain d => domain_name c d
+    | CSetIdentity i => identity c i
+    | CSetAssume b => assume_http2 c b
+    end.
+
   (* ---------------------------------------------------------------- channel/service/tls.rs *)
   Record TlsConnector := {
     tc_roots : list ca;               (* config: the root store *)
@@ -328,6 +339,28 @@ Section Wiring.
     s_identity : option (Identity cert);
     s_client_ca_root : option (list (pem_sec ca));     (* ONE blob, any number of certificates *)
     s_client_auth_optional : bool }.
+
+  (* server/tls.rs: ServerTlsConfig::new() and the setters, each [ServerTlsConfig { field, ..self }].
+     A configuration is a plain value: the setters take [self] and return a new value *)
+  Definition server_tls_config_new : ServerTlsConfig :=
+    {| s_identity := None; s_client_ca_root := None; s_client_auth_optional := false |}.
+  Definition server_identity (c : ServerTlsConfig) (id : Identity cert) : ServerTlsConfig :=
+    {| s_identity := Some id; s_client_ca_root := s_client_ca_root c;
+       s_client_auth_optional := s_client_auth_optional c |}.
+  Definition server_client_ca_root (c : ServerTlsConfig) (blob : list (pem_sec ca)) : ServerTlsConfig :=
+    {| s_identity := s_identity c; s_client_ca_root := Some blob;
+       s_client_auth_optional := s_client_auth_optional c |}.
+  Definition server_client_auth_optional (c : ServerTlsConfig) (b : bool) : ServerTlsConfig :=
+    {| s_identity := s_identity c; s_client_ca_root := s_client_ca_root c;
+       s_client_auth_optional := b |}.
+  Inductive srv_setter :=
+  | SetIdentity (id : Identity cert) | SetClientCa (blob : list (pem_sec ca)) | SetOptional (b : bool).
+  Definition apply_srv_setter (c : ServerTlsConfig) (s : srv_setter) : ServerTlsConfig :=
+    match s with
+    | SetIdentity id => server_identity c id
+    | SetClientCa blob => server_client_ca_root c blob
+    | SetOptional b => server_client_auth_optional c b
+    end.
 
   Inductive client_verifier :=
   | NoClientAuth                                     (* builder.with_no_client_auth() *)
@@ -669,6 +702,66 @@ Section Wiring.
     else 2.
 End Wiring.
 
+
+(* ------------------------------------------------------------------ configuration values over time *)
+(* A process builds configuration values step by step, clones them, derives new ones from
+   values that were already used (a server built and serving, an endpoint connected), and uses
+   them in any order.  [V] = ServerTlsConfig / ClientTlsConfig, [S] = their setter calls.
+   Bindings are named by numbers.  A value used without [.clone()] is moved out of its binding
+   (Rust ownership); a step naming a binding that holds nothing changes nothing (such a program
+   does not compile). *)
+Section ValueHistory.
+  Context {V S : Type}.
+  Variable vnew : V.                      (* ::new() *)
+  Variable vapp : V -> S -> V.            (* value.setter(..) *)
+
+  Inductive vstep :=
+  | VNew (dst : nat)                                       (* let dst = T::new() *)
+  | VSet (dst src : nat) (s : S) (by_clone : bool)         (* let dst = src[.clone()].setter(..) *)
+  | VUse (src : nat) (by_clone : bool)                     (* tls_config(src[.clone()]): the next server / endpoint *)
+  | VNop.                                                  (* anything else the process does: servers
+                                                              serving, handshakes, calls *)
+  Definition vstore := list (nat * V).
+  Fixpoint vget (st : vstore) (k : nat) : option V :=
+    match st with
+    | [] => None
+    | (j, v) :: r => if Nat.eqb k j then Some v else vget r k
+    end.
+  Definition vdel (st : vstore) (k : nat) : vstore := filter (fun p => negb (Nat.eqb k (fst p))) st.
+  Definition vput (st : vstore) (k : nat) (v : V) : vstore := (k, v) :: vdel st k.
+  Definition vtake (st : vstore) (k : nat) (by_clone : bool) : vstore := if by_clone then st else vdel st k.
+
+  (* one step: the bindings afterwards and the values handed to tls_config by it *)
+  Definition vstep_run (st : vstore) (x : vstep) : vstore * list (option V) :=
+    match x with
+    | VNew d => (vput st d vnew, [])
+    | VSet d s op cl =>
+        match vget st s with
+        | Some v => (vput (vtake st s cl) d (vapp v op), [])
+        | None => (st, [])
+        end
+    | VUse s cl => (vtake st s cl, [vget st s])
+    | VNop => (st, [])
+    end.
+  Fixpoint vrun (st : vstore) (h : list vstep) : vstore * list (option V) :=
+    match h with
+    | [] => (st, [])
+    | x :: r =>
+        let (st1, u1) := vstep_run st x in
+        let (st2, u2) := vrun st1 r in
+        (st2, u1 ++ u2)
+    end.
+  (* the values handed to tls_config, in order *)
+  Definition vuses (h : list vstep) : list (option V) := snd (vrun [] h).
+
+  (* specification vocabulary: a value written as the chain of setter calls that made it *)
+  Inductive vexpr := XNew | XSet (e : vexpr) (s : S).
+  Fixpoint veval (e : vexpr) : V :=
+    match e with
+    | XNew => vnew
+    | XSet e s => vapp (veval e) s
+    end.
+End ValueHistory.
 
 (* ------------------------------------------------------------------ the listener over time *)
 (* ---------------------------------------------------------------- io_stream.rs as a state machine *)
@@ -1034,6 +1127,62 @@ Definition obs_call_built (native : list caid) (s : scheme) (h : option dn)
   | BuildErr => tag 102 []
   | BuildOk sv => obs_call native true s h c (server_listener sv)
   end.
+
+(* ---- configuration values derived from values that were already used (kinds sequence.derived_config.x) *)
+(* a process: steps on ServerTlsConfig values ([VUse] = Server::builder().tls_config(value), the
+   next server, built and serving from then on) interleaved with calls of clients to the servers
+   built so far.  Result: the servers' configurations and the observable of every call *)
+Inductive sh_step :=
+| ShVal (v : @vstep (@srv_setter certid caid))
+| ShCall (k : nat) (s : scheme) (h : option dn) (c : option (@ClientTlsConfig certid caid dn)).
+Fixpoint srv_history_run (native : list caid) (st : @vstore (@ServerTlsConfig certid caid))
+    (servers : list (option (@ServerTlsConfig certid caid))) (h : list sh_step)
+    : list (option (@ServerTlsConfig certid caid)) * list tr :=
+  match h with
+  | [] => (servers, [])
+  | ShVal v :: r =>
+      let (st', u) := vstep_run server_tls_config_new apply_srv_setter st v in
+      srv_history_run native st' (servers ++ u) r
+  | ShCall k s hh c :: r =>
+      let o := match nth_error servers k with
+               | Some (Some cfg) => obs_call_cfg native s hh c cfg
+               | _ => tag 103 []
+               end in
+      let (sv, os) := srv_history_run native st servers r in
+      (sv, o :: os)
+  end.
+Definition obs_srv_history (native : list caid) (h : list sh_step) : tr :=
+  Nd (snd (srv_history_run native [] [] h)).
+(* specification vocabulary: the value steps of a process, the calls being "anything else" *)
+Definition sh_vals (h : list sh_step) : list (@vstep (@srv_setter certid caid)) :=
+  map (fun x => match x with ShVal v => v | ShCall _ _ _ _ => VNop end) h.
+
+(* the client side: steps on ClientTlsConfig values ([VUse] = Endpoint::from_shared(uri).tls_config(value),
+   the next endpoint) interleaved with calls through the endpoints built so far *)
+Inductive ch_step :=
+| ChVal (v : @vstep (@cli_setter certid caid dn))
+| ChCall (ep : nat) (srv : @server certid caid).
+Fixpoint cli_history_run (native : list caid) (s : scheme) (h : option dn)
+    (st : @vstore (@ClientTlsConfig certid caid dn))
+    (eps : list (option (@ClientTlsConfig certid caid dn))) (hist : list ch_step)
+    : list (option (@ClientTlsConfig certid caid dn)) * list tr :=
+  match hist with
+  | [] => (eps, [])
+  | ChVal v :: r =>
+      let (st', u) := vstep_run client_tls_config_new apply_cli_setter st v in
+      cli_history_run native s h st' (eps ++ u) r
+  | ChCall k srv :: r =>
+      let o := match nth_error eps k with
+               | Some (Some cfg) => obs_call native true s h (Some cfg) srv
+               | _ => tag 103 []
+               end in
+      let (e, os) := cli_history_run native s h st eps r in
+      (e, o :: os)
+  end.
+Definition obs_cli_history (native : list caid) (s : scheme) (h : option dn) (hist : list ch_step) : tr :=
+  Nd (snd (cli_history_run native s h [] [] hist)).
+Definition ch_vals (h : list ch_step) : list (@vstep (@cli_setter certid caid dn)) :=
+  map (fun x => match x with ChVal v => v | ChCall _ _ => VNop end) h.
 
 (* ONE listener, several clients one after the other (each on a connection of its own): what
    the listener does with one connection does not depend on the others (a failed accept task is
